@@ -44,7 +44,9 @@ MIN = {'quick': {'distinct': 600,
                            'global state snapshots': 3000,
                            'additivity checks': 60},
                  'strata': {'slash annotation under hash seeds': 40,
-                            'op read2': 50, 'op cli': 200, 'op grammar': 200,
+                            'op read2': 50, 'op pipeline': 80,
+                            'read2: compressed inputs with the same base '
+                            'name': 12, 'op cli': 200, 'op grammar': 200,
                             'op trans': 300, 'op write_many': 50}},
        'thorough': {'distinct': 8000,
                     'hooks': {'fresh process runs': 5000}}}
@@ -155,13 +157,16 @@ def trace_spec(rng):
 
 
 def make_op(rng, tag, tfiles):
-    kind = rng.choice(['read', 'read', 'read2', 'trans', 'trans', 'trans',
+    kind = rng.choice(['read', 'read', 'read2', 'pipeline', 'trans', 'trans',
+                       'trans',
                        'write', 'write_many', 'grammar', 'grammar', 'analysis',
                        'transitions', 'cli', 'cli'])
-    if kind in ('read', 'read2'):
-        def part():
-            fmt = rng.choice(['export', 'brackets', 'discobrackets', 'tigerxml'])
-            bank = small_bank(rng, rng.randint(1, 4), cont=fmt == 'brackets')
+    if kind in ('read', 'read2', 'pipeline'):
+        def part(fmt=None, k=None):
+            fmt = fmt or rng.choice(['export', 'brackets', 'discobrackets',
+                                     'tigerxml'])
+            bank = small_bank(rng, k or rng.randint(1, 4),
+                              cont=fmt == 'brackets')
             text = {'export': lambda: codec.export_encode(bank),
                     'brackets': lambda: codec.brackets_encode(bank),
                     'discobrackets': lambda: codec.discobrackets_encode(bank),
@@ -174,6 +179,28 @@ def make_op(rng, tag, tfiles):
             return {'fmt': fmt, 'text': text, 'opts': opts}
         if kind == 'read':
             return dict(part(), k='read')
+        if kind == 'pipeline':
+            fmt = rng.choice(['export', 'brackets', 'tigerxml'])
+            seqs = [['add_topnode'], ['negra_mark_heads', 'binarize'],
+                    ['negra_mark_heads', 'binarize', 'add_topnode'],
+                    ['root_attach', 'negra_mark_heads', 'boyd_split',
+                     'raising'], ['collapse_unary_chains'], []]
+            return {'k': 'pipeline', 'a': part(fmt, rng.randint(2, 5)),
+                    'b': part(None, rng.randint(1, 2)),
+                    'names': rng.choice(seqs),
+                    'dfmt': 'brackets' if fmt == 'brackets'
+                    else rng.choice(['export', 'discobrackets'])}
+        if rng.random() < 0.25:
+            # two gzip-compressed inputs with the same base name in different
+            # directories, the first one longer than any read buffer
+            fmt = rng.choice(['export', 'brackets', 'discobrackets'])
+            a, b = part(fmt, rng.randint(70, 110)), part(fmt)
+            if rng.random() < 0.5:
+                a, b = b, a
+            name = rng.choice(['train', 'corpus'])
+            a.update(gz=True, dir='dirA', name=name)
+            b.update(gz=True, dir='dirB', name=name)
+            return {'k': 'read2', 'a': a, 'b': b}
         return {'k': 'read2', 'a': part(), 'b': part()}
     if kind == 'trans':
         r = rng.random()
@@ -313,6 +340,8 @@ def op_shape(op):
         s += ':' + '+'.join(op['names'])
     elif s in ('read', 'write', 'write_many', 'grammar'):
         s += ':' + op['fmt']
+    elif s == 'pipeline':
+        s += ':' + '+'.join(op['names'])
     elif s == 'cli':
         s += ':' + op['argv'][0]
     return s
@@ -368,6 +397,30 @@ def run_session(ctx, si, rng):
         else:
             outputs[pi] = out
         positions.setdefault(pi, []).append(pos)
+        # a treebank read in between does not change what becomes of this one
+        if op['k'] == 'pipeline':
+            alone = norm(c18_ops.execute(R, dict(copy.deepcopy(op), b=None),
+                                         tmp, set()))
+            ctx.hook('pipeline with and without another reader call')
+            if str(alone).split('|other|')[0] != str(out).split('|other|')[0]:
+                ctx.fail('C18:reader-call-in-between-changes-result:'
+                         + '+'.join(op['names']), case,
+                         'treebank read, another treebank read, first one '
+                         'transformed (%s) and written: %s | without the '
+                         'other reader call: %s'
+                         % (op['names'], str(out)[:300], str(alone)[:300]))
+            if op['b'].get('fmt') and out[:1] != ['EXCEPTION']:
+                solo = norm(c18_ops.execute(
+                    R, {'k': 'pipeline', 'a': op['b'], 'names': [],
+                        'dfmt': 'export'}, tmp, set()))
+                if str(solo).split('|other|')[0] != \
+                        str(out).split('|other|')[-1]:
+                    ctx.fail('C18:live-trees-change-what-a-reader-yields',
+                             case, 'second treebank written %s | read alone '
+                             '%s' % (str(out).split('|other|')[-1][:300],
+                                     str(solo)[:300]))
+        if op['k'] == 'read2' and op['a'].get('gz'):
+            ctx.stratum('read2: compressed inputs with the same base name')
         # read2 == the two single reads
         if op['k'] == 'read2':
             singles = []
